@@ -24,7 +24,7 @@ RULE = ("product of (old state point, route) x destination kind {absent, initial
         "derived in Coq (script_C04) and mirrored here; observations: byte snapshots of both workspaces before / "
         "after / after reading documents / after re-using the independent copies, exception class, "
         "(id, path, statepoint(), cached_statepoint, document()) of every handle, ids listed by fresh Projects. "
-        "quick: stratified seeded sample of ~485 (guaranteed strata for conflicting updates on falsy values and move-then-edit); thorough: the full (old, route) x destination product with 6 handle "
+        "quick: stratified seeded sample of ~530 (destination x handle configuration enumerated per route kind; guaranteed strata for conflicting updates on falsy values and move-then-edit); thorough: the full (old, route) x destination product with 6 handle "
         "configurations each. non-trivial: the operation changes the id or hits a conflict / KeyError; distinct by input")
 TRUSTED = [
     "float.__repr__ as oracle table (Section variable frepr)",
@@ -71,6 +71,11 @@ HANDLE_CONFIGS = [   # (prov, access, shallow, deep, pickle)
     ("PIdFresh", False, 1, True, False),      # shallow copy of a by-id handle taken before any access (follows since fix 0894ce6)
     ("PIdCached", False, 0, True, True),
     ("PInit", True, 0, False, False),
+    # lazy handles: nothing of the job has been loaded through the handle when the operation starts (since fix 0894ce6
+    # a shallow copy or a pickle loads the state point, so these need shallow = 0 and no pickle)
+    ("PIdFresh", False, 0, False, False),     # by id, state point cache miss
+    ("PIdCached", False, 0, True, False),     # by id, state point known to the project's cache; deep copy taken lazily too
+    ("PSpFresh", False, 0, False, False),     # by state point on a fresh project object, never initialised through it
     ("PUninit", False, 1, True, False),
     ("PUninit", True, 1, False, True),
 ]
@@ -232,13 +237,22 @@ def gen_inputs(tier, rng):
             by_kind.setdefault(key, []).append((old, r))
         quota = {"move": 40, "clone": 40, "move-edit": 36, "update-conflict": 30, "update-conflict-falsy": 30, "update": 30}
         chosen = []
+        nd, nc = len(DESTS), len(HANDLE_CONFIGS)
         for key, lst in sorted(by_kind.items()):
-            n = quota.get(key, 56)
-            chosen += [lst[i % len(lst)] for i in range(n)]
-        for n, (old, r) in enumerate(chosen):
-            dest = DESTS[n % 4] if rng.random() < 0.8 else rng.choice(DESTS)
-            cfg = HANDLE_CONFIGS[(n // 4) % len(HANDLE_CONFIGS)] if rng.random() < 0.7 else rng.choice(HANDLE_CONFIGS)
+            # within one route kind the (destination, handle configuration) pairs are enumerated systematically from a
+            # seeded offset: a kind with quota >= |DESTS| * |HANDLE_CONFIGS| sees every pair in every run, the
+            # others rotate through them with the seed
+            n = quota.get(key, nd * nc)
+            off = rng.randrange(nd * nc)
+            for i in range(n):
+                old, r = lst[i % len(lst)]
+                j = (i + off) % (nd * nc)
+                chosen.append((old, r, DESTS[j % nd], HANDLE_CONFIGS[j // nd]))
+        for old, r, dest, cfg in chosen:
             descs.append(make_desc(old, r, dest, cfg, rng.choice(PAYLOADS)))
+        for _ in range(40):     # plus a free random mix
+            old, r = rng.choice(pairs)
+            descs.append(make_desc(old, r, rng.choice(DESTS), rng.choice(HANDLE_CONFIGS), rng.choice(PAYLOADS)))
     else:
         for n, (old, r) in enumerate(pairs):
             for dest in DESTS:
